@@ -135,7 +135,7 @@ def gen_one(rng, tier, magic=False, hidden=False):
                       'spelling': rng.choice(
                           [None, None, None, 'dotdot', 'double', 'slashdot',
                            'relative', 'dot_relative', 'cwd_dot',
-                           'cwd_dotslash', 'cwd_empty']),
+                           'cwd_dotslash', 'cwd_empty', 'symlink']),
                       # a file appears in an existing (nested) directory
                       # between two populations by the same populator
                       'add_file': rng.random() < 0.25})
@@ -256,7 +256,7 @@ def _run(case, desper, res, tmp):
         def __init__(self, rule_index, path, args, kwargs):
             # (any spelling of the file's path will do; a relative one
             # is meant from the working directory of the population)
-            self.rec = (rule_index, os.path.normpath(os.path.abspath(path)),
+            self.rec = (rule_index, os.path.realpath(os.path.abspath(path)),
                         tuple(args), dict(kwargs))
 
         def load(self):
@@ -330,6 +330,12 @@ def _run(case, desper, res, tmp):
             root = base
         elif spelling == 'dot_relative':
             root = os.path.join(os.curdir, base)
+        elif spelling == 'symlink':
+            # the root is reached through a symbolic link (keys are
+            # relative to the root AS GIVEN)
+            root = os.path.join(parent, f'link{at}_{base}')
+            if not os.path.lexists(root):
+                os.symlink(plain_root, root)
         elif spelling in ('cwd_dot', 'cwd_dotslash', 'cwd_empty'):
             # the root IS the working directory
             root = {'cwd_dot': os.curdir, 'cwd_dotslash': os.curdir + os.sep,
@@ -409,7 +415,8 @@ def _run(case, desper, res, tmp):
                      'a handle built by rule %d' % ri, repr(got), key=key)
                 return
             want_paths = per_rule[ri][key]
-            ok = (got.rec[0] == ri and got.rec[1] in want_paths
+            ok = (got.rec[0] == ri and got.rec[1] in {
+                os.path.realpath(p) for p in want_paths}
                   and list(got.rec[2]) == rule['args']
                   and got.rec[3] == rule['kwargs'])
             if not ok:
